@@ -242,6 +242,15 @@ func cmdCheck(args []string) int {
 	if *tier == "thorough" {
 		timeout = 90
 	}
+	// query directories of earlier runs that were killed (their process is gone) are removed
+	if olds, err := filepath.Glob(filepath.Join(os.TempDir(), "gverif-*-*")); err == nil {
+		for _, o := range olds {
+			i := strings.LastIndex(o, "-")
+			if _, err := os.Stat("/proc/" + o[i+1:]); os.IsNotExist(err) {
+				os.RemoveAll(o)
+			}
+		}
+	}
 	qdir := filepath.Join(os.TempDir(), fmt.Sprintf("gverif-%s-%d", *prop, os.Getpid()))
 	ts := time.Now()
 	// call-site vacuity queries: the "reachable before the call" half is only needed (and only
